@@ -150,7 +150,8 @@ func (m *protoModel) onEvent(ev txh.RegEvent) {
 					m.fail("t%d reserves a new inactive id on node %s although t%d's reservation (%s, wip=%d) is still in place", ev.Txn, short(lid), m.writer[lid], short(inactive(prev)), prev.WorkInProgressTimestamp)
 				}
 			}
-			if had && h.IsDeleted && !prev.IsDeleted && !inactive(prev).IsNil() && m.writer[lid] != ev.Txn && prev.WorkInProgressTimestamp != 1 && !expired(prev) {
+			// (a handle whose timestamp is 0 carries no reservation: its inactive id is the leftover of an earlier flip)
+			if had && h.IsDeleted && !prev.IsDeleted && !inactive(prev).IsNil() && m.writer[lid] != ev.Txn && prev.WorkInProgressTimestamp > 1 && !expired(prev) {
 				m.fail("t%d marks node %s deleted while t%d's update of it is staged", ev.Txn, short(lid), m.writer[lid])
 			}
 		}
